@@ -92,6 +92,21 @@ def modules():
     m.hugr[decl].metadata["flag"] = False
     m.hugr[f.parent_node].metadata["count"] = 0
     out.append(("falsy-metadata-and-mixed-type-params", m.hugr))
+
+    # an indirect call that is the target and the source of state-order edges: its order port comes after the function input AND the arguments
+    m = Module()
+    g = m.define_function("callee", [tys.Bool, tys.Bool], [tys.Bool])
+    g.set_outputs(g.inputs()[0])
+    f = m.define_function("indirect", [tys.Bool])
+    (b,) = f.inputs()
+    fv = f.load_function(g.parent_node)
+    first = f.add_op(Not, b)
+    ci = f.add_op(ops.CallIndirect(), fv, first, b)
+    last = f.add_op(Not, ci[0])
+    f.add_state_order(first, ci)
+    f.add_state_order(ci, last)
+    f.set_outputs(last)
+    out.append(("call-indirect-with-order-edges", m.hugr))
     return out
 
 
